@@ -1053,11 +1053,22 @@ pub fn to_real(p: &MP) -> PushProgram {
 #[derive(Debug)]
 pub enum BuildError {
     Overflow(String),
+    /// the builder panicked on a state every part of which is legal
+    Panic(String),
 }
 
 /// Build the real `PushState` equal to the model state, through the public builder.
 /// Pre-filled stdout is produced by performing a `PrintString` on the built state.
 pub fn build_real(m: &MState) -> Result<PushState, BuildError> {
+    // building is a call into the code under test like any other: marked for the supervising
+    // parent (a death while building is attributed), and a panic is an observation
+    match vh_core::catch(|| build_real_inner(m)) {
+        Ok(r) => r,
+        Err(p) => Err(BuildError::Panic(p.to_string())),
+    }
+}
+
+fn build_real_inner(m: &MState) -> Result<PushState, BuildError> {
     use push::instruction::Instruction;
     let prog: Vec<PushProgram> = m.exec.iter().rev().map(to_real).collect(); // first = top
     let mut b = PushState::builder()
